@@ -3,6 +3,7 @@
   Property theorems only; helper lemmas live in BS/Proofs.
 -/
 import BS.Proofs.CacheReopen
+import BS.Proofs.AnyMix
 
 namespace BS.Props.C09
 open BS BS.Impl
@@ -59,6 +60,23 @@ theorem append_close_reopen_keeps_caches (p : Nat) (hp : p ≤ u64Max) (user : B
       dir2.main.data = dir1.main.data ∧
       (∀ B ∈ s.caches.map (·.B), (dir2.cache B).data = (dir1.cache B).data) :=
   round_preserves p hp user hH dir s xs hsp hinv atts hts hcfg hc hsize hcc cb pOpt hpo hOpt hho
+
+/-- **Any mix of appends and reopens, as one theorem** (payload sizes ≥ 4, where `TailClean` is
+void).  Create a series with any admissible cache configuration; then perform ANY sequence of
+append attempts (any timestamps and payloads) and close/reopen steps (payload size demanded or
+retrieved, header demanded or any, any callback setting).  Nothing panics, no open fails, and
+at the end — hence after every prefix — the source files, the index, `range` and EVERY cache
+level are exactly those of one uninterrupted session over the accepted lines: the session
+invariant for `histAfter`, the history in which reopening changes nothing.  (`acts.length`
+bounds the file sizes below 2^64 bytes.) -/
+theorem any_mix_of_appends_and_reopens (p : Nat) (hp4 : 4 ≤ p) (hpu : p ≤ u64Max) (hdr : Option Bytes)
+    (hH : (toText p ++ hdr.getD []).length ≤ 65535) (Bs : List Nat) (hcfg : CacheCfgOK Bs)
+    (acts : List Act) (hN : acts.length * (lineSize p + metaSize p) < 2^64)
+    (hok : ∀ a ∈ acts, ActOK p (hdr.getD []) a) :
+    ∃ dir0 s0 dir s, apiNew {} p hdr Bs = (dir0, .ok (s0, hdr.getD [])) ∧
+      runActs Bs dir0 s0 acts = some (dir, s) ∧
+      SessInvC (seriesHdr p (hdr.getD [])) ihdr dir s (histAfter p [] acts) :=
+  anyMix_from_creation p hp4 hpu hdr hH Bs hcfg acts hN hok
 
 /-- **Reopen after a crash, caches included**: source data cut at any byte, its index in any
 legitimate state, and every configured cache absent or torn at any byte relative to the
